@@ -59,13 +59,15 @@ type verifC02Task struct {
 	id    string
 	dbrps []DBRP
 	froms []verifC02From
+	task  *Task                // the real task definition: stream source with one from() per entry of froms
+	nodes []*pipeline.FromNode // its from() nodes
 }
 
 // one incarnation of a running task: the edge newFork returned and, per written point
 // and from() node, whether the reference semantics select the point.
 type verifC02Inc struct {
 	e    edge.StatsEdge
-	want [][]bool // [point index][from index]
+	want [][]uint8 // [point index][from index], 0/1
 }
 
 func verifC02MakeTask(v *vrt.T, id string, maxDBRPs, maxFroms int, fromFilters bool) *verifC02Task {
@@ -83,36 +85,56 @@ func verifC02MakeTask(v *vrt.T, id string, maxDBRPs, maxFroms int, fromFilters b
 		}
 		t.froms = append(t.froms, f)
 	}
+	// what `stream|from().database(db).retentionPolicy(rp).measurement(m)` (once per
+	// from) builds, without the TICKscript evaluator
+	pl, src := pipeline.VerifNewStreamSource()
+	for _, f := range t.froms {
+		n := src.From()
+		n.Database, n.RetentionPolicy, n.Measurement = f.db, f.rp, f.m
+		t.nodes = append(t.nodes, n)
+	}
+	t.task = &Task{ID: id, Pipeline: pl, Type: StreamTask, DBRPs: t.dbrps}
 	return t
 }
 
-func (t *verifC02Task) measurements() []string {
-	// what Task.Measurements() yields: the measurement of every from() node, in order
-	ms := make([]string, 0, len(t.froms))
-	for _, f := range t.froms {
-		ms = append(ms, f.m)
+// Reference semantics (DESIGN Appendix A "Routing"), written branch-free: truth values
+// are uint8 0/1 combined with & and |, so that evaluating the oracle on symbolic names
+// does not split paths (the assertion hands one term to the solver).
+
+// verifC02Eq is 1 iff a == b (lengths are concrete, bytes may be symbolic).
+func verifC02Eq(a, b string) uint8 {
+	if len(a) != len(b) {
+		return 0
 	}
-	return ms
+	var d uint8
+	for i := 0; i < len(a); i++ {
+		d |= a[i] ^ b[i]
+	}
+	return 1 - ((d | -d) >> 7) // (d | -d) has its top bit set iff d != 0
 }
 
-// reference semantics (DESIGN Appendix A "Routing")
-func (t *verifC02Task) declared(db, rp string) bool {
+// declared: the task lists the pair (db, rp).
+func (t *verifC02Task) declared(db, rp string) uint8 {
+	var r uint8
 	for _, d := range t.dbrps {
-		if d.Database == db && d.RetentionPolicy == rp {
-			return true
-		}
+		r |= verifC02Eq(d.Database, db) & verifC02Eq(d.RetentionPolicy, rp)
 	}
-	return false
+	return r
 }
 
-func (f verifC02From) selects(db, rp, name string) bool {
-	if f.db != "" && f.db != db {
-		return false
+// selects: every configured filter of the from() node equals the point's attribute.
+func (f verifC02From) selects(db, rp, name string) uint8 {
+	r := uint8(1)
+	if f.db != "" {
+		r &= verifC02Eq(f.db, db)
 	}
-	if f.rp != "" && f.rp != rp {
-		return false
+	if f.rp != "" {
+		r &= verifC02Eq(f.rp, rp)
 	}
-	return f.m == "" || f.m == name
+	if f.m != "" {
+		r &= verifC02Eq(f.m, name)
+	}
+	return r
 }
 
 func verifC02TaskMaster() *TaskMaster {
@@ -133,6 +155,7 @@ func verifC02TaskMaster() *TaskMaster {
 // reference semantics.
 func VerifC02Routing(v *vrt.T) {
 	steps := v.Bound("steps", 4)
+	maxWrites := v.Bound("writes", steps)
 	fromFilters := v.Bound("fromfilters", 0) == 1
 	tasks := []*verifC02Task{
 		verifC02MakeTask(v, "A", v.Bound("dbrpsA", 2), v.Bound("fromsA", 2), fromFilters),
@@ -144,12 +167,16 @@ func VerifC02Routing(v *vrt.T) {
 	npoints := 0
 
 	for s := 0; s < steps; s++ {
-		op := v.Choose("op", 3)
+		nops := 3
+		if npoints >= maxWrites {
+			nops = 2 // the write budget of this tier is used up: only start/stop steps remain
+		}
+		op := v.Choose("op", nops)
 		if op < 2 {
 			t := tasks[op]
 			if cur[op] == nil {
-				// StartTask: newFork(id, dbrps, Task.Measurements())
-				e, err := tm.newFork(t.id, t.dbrps, t.measurements())
+				// as StartTask does
+				e, err := tm.newFork(t.task.ID, t.task.DBRPs, t.task.Measurements())
 				v.Assert(err == nil && e != nil, "newFork succeeds")
 				inc := &verifC02Inc{e: e}
 				cur[op] = inc
@@ -179,10 +206,12 @@ func VerifC02Routing(v *vrt.T) {
 			}
 			decl := t.declared(db, rp)
 			got := inc.e.Collected() - before[ti]
-			v.Assert(got == 0 || decl, "a task that did not declare (db,rp) never receives the point")
-			w := make([]bool, len(t.froms))
+			if got != 0 {
+				v.Assert(decl == 1, "a task that did not declare (db,rp) never receives the point")
+			}
+			w := make([]uint8, len(t.froms))
 			for fi, f := range t.froms {
-				w[fi] = decl && f.selects(db, rp, name)
+				w[fi] = decl & f.selects(db, rp, name)
 			}
 			for len(inc.want) < npoints {
 				inc.want = append(inc.want, nil)
@@ -214,13 +243,11 @@ func VerifC02Routing(v *vrt.T) {
 			}
 			sn := &StreamNode{node: node{ins: []edge.StatsEdge{inc.e}, outs: fromIn}}
 			v.Assert(sn.runSourceStream(nil) == nil, "stream node runs")
-			for fi, f := range t.froms {
+			for fi := range t.froms {
 				fromIn[fi].Close()
-				fn := &FromNode{
-					node: node{ins: []edge.StatsEdge{fromIn[fi]}, outs: []edge.StatsEdge{sinks[fi]}, diag: &verifNopDiag{}, timer: verifC02Timer{}},
-					s:    &pipeline.FromNode{},
-					db:   f.db, rp: f.rp, name: f.m,
-				}
+				fn, err := newFromNode(nil, t.nodes[fi], &verifNopDiag{})
+				v.Assert(err == nil, "from node created")
+				fn.ins, fn.outs, fn.timer = []edge.StatsEdge{fromIn[fi]}, []edge.StatsEdge{sinks[fi]}, verifC02Timer{}
 				v.Assert(fn.runStream(nil) == nil, "from node runs")
 				sinks[fi].Close()
 				// sink contents: strictly increasing point indexes (order, at most once) ...
@@ -238,10 +265,18 @@ func VerifC02Routing(v *vrt.T) {
 					total++
 				}
 				// ... and exactly the points the reference selects while the task was running
+				var bad uint8 // one solver question per sink: some point present xor selected
 				for i := 0; i < npoints; i++ {
-					want := i < len(inc.want) && inc.want[i] != nil && inc.want[i][fi]
-					v.Assert(seen[i] == want, "from() node receives a point iff the task runs, declared (db,rp) and the from() selects it")
+					want := uint8(0) // not written while this incarnation ran
+					if i < len(inc.want) && inc.want[i] != nil {
+						want = inc.want[i][fi]
+					}
+					if seen[i] {
+						want ^= 1
+					}
+					bad |= want
 				}
+				v.Assert(bad == 0, "from() node receives a point iff the task runs, declared (db,rp) and the from() selects it")
 			}
 		}
 	}
